@@ -23,6 +23,7 @@ import (
 	"net/http"
 	"net/http/httptest"
 	"os"
+	"runtime/debug"
 	"sort"
 	"strconv"
 	"strings"
@@ -95,6 +96,20 @@ func c12Parse(s string) []c12Ev {
 		out = append(out, c12Ev{K: uint8(k), P: int8(f[1] - 'a')})
 	}
 	return out
+}
+
+// c12Compact is the one-byte-per-event spelling used for the distinct-history set.
+func c12Compact(max int, h []c12Ev) string {
+	b := make([]byte, 0, len(h)+1)
+	b = append(b, byte('0'+max))
+	for _, e := range h {
+		if e.K == c12Tick {
+			b = append(b, 'z')
+		} else {
+			b = append(b, byte('A'+int(e.K)*c12NR+int(e.P)))
+		}
+	}
+	return string(b)
 }
 
 // c12Canon renames receivers in order of first appearance (a, b, c).
@@ -1073,7 +1088,7 @@ func (x *c12Explorer) account(r *c12Result, source string) {
 		} else if r.Executed < len(done) {
 			done = done[:r.Executed]
 		}
-		e.R.Distinct(strconv.Itoa(r.Max) + ":" + c12HistStr(done, ""))
+		e.R.Distinct(c12Compact(r.Max, done))
 	}
 	if r.FailAt > 0 {
 		pre := r.Hist[:r.FailAt]
@@ -1326,6 +1341,8 @@ func runC12(e *Env) {
 		termio.Init()
 		os.Stderr = orig
 	}
+	// thousands of tiny short-lived senders per second: collect less often
+	defer debug.SetGCPercent(debug.SetGCPercent(1600))
 	verifhook.Reset()
 	c12InstallHooks()
 	defer verifhook.Reset()
@@ -1418,7 +1435,7 @@ func runC12(e *Env) {
 	case e.Race:
 		bounds = []bound{{1, 7}, {2, 7}, {3, 7}}
 	case e.Thorough():
-		bounds = []bound{{1, 8}, {2, 8}, {3, 8}}
+		bounds = []bound{{1, 8}, {2, 8}, {3, 8}, {1, 9}}
 	default:
 		bounds = []bound{{1, 7}, {2, 7}, {3, 7}}
 	}
@@ -1432,7 +1449,7 @@ func runC12(e *Env) {
 	// 3. random histories (pure function of tier and seed)
 	nRand, rlen := 6000, 9
 	if e.Thorough() {
-		nRand, rlen = 20000, 12
+		nRand, rlen = 60000, 12
 	}
 	if e.Race {
 		nRand /= 4
